@@ -13,7 +13,8 @@
 //!   rttext  `x<hex bytes>` text for the run-time parser, `-` = no run-time comparison
 //!   tok     L|I|P|G + hex bytes of the token text (literal, ident, punct, group); lower-case kind
 //!           letter = glued to the previous token without white space
-//! answer: `lexerr` | `lexdiff ...` | `reject` | `ok <shape...> val <value...> rt <value...|err|na>`
+//! answer: `lexerr` | `toks <n> <tok>*n reject rt <..>` | `toks <n> <tok>*n ok <shape...> val <value...> rt <value...|err|na>`
+//!   (toks = the token trees proc_macro2 produced from the source text, same encoding as in the case)
 #![allow(dead_code, unused_imports, deprecated)]
 mod parse {
     pub mod common {
@@ -479,10 +480,14 @@ fn run(op: &str, args: &[&str]) -> String {
             TokenTree::Group(g) => ('G', g.to_string()),
         })
         .collect();
-    let same = got.len() == want.len() && got.iter().zip(&want).all(|(g, w)| g.0 == w.0 && (g.0 == 'G' || g.1 == w.1));
-    if !same {
-        return format!("lexdiff {}", got.iter().map(|(k, s)| format!("{}{}", k, s)).collect::<Vec<_>>().join("|").replace(' ', ""));
-    }
+    let _ = want;
+    // the tokens the front end really receives are part of the answer: the oracle runs the Coq
+    // model of the token loop on them
+    let toks = format!(
+        "toks {:x} {}",
+        got.len(),
+        got.iter().map(|(k, s)| format!("{}{}", k, s.bytes().map(|b| format!("{:02x}", b)).collect::<String>())).collect::<Vec<_>>().join(" ")
+    );
     let st = flags.contains('s');
     let emb = flags.contains('e');
     let signed = flags.contains('i');
@@ -500,23 +505,6 @@ fn run(op: &str, args: &[&str]) -> String {
         }
         _ => panic!("unknown op"),
     }));
-    let out = match out {
-        Ok(o) => o,
-        Err(_) => return "reject".to_string(),
-    };
-    let mut atoms = Vec::new();
-    flatten(out, &mut atoms);
-    check_ns(&atoms, emb);
-    let (shape, val) = match op {
-        "int" => {
-            let (s, v) = int_shape(&atoms);
-            assert!(s.contains(if signed { " I " } else { " U " }), "constructor type");
-            (s, hi(&v))
-        }
-        "fbin" => float_shape(&atoms, false),
-        "fdec" => float_shape(&atoms, true),
-        _ => ratio_shape(&atoms),
-    };
     let rt = match (&rttext, op) {
         (None, _) => "na".to_string(),
         (Some(t), "int") => {
@@ -540,7 +528,24 @@ fn run(op: &str, args: &[&str]) -> String {
             r.unwrap_or_else(|_| "err".to_string())
         }
     };
-    format!("ok {} val {} rt {}", shape, val, rt)
+    let out = match out {
+        Ok(o) => o,
+        Err(_) => return format!("{} reject rt {}", toks.trim_end(), rt),
+    };
+    let mut atoms = Vec::new();
+    flatten(out, &mut atoms);
+    check_ns(&atoms, emb);
+    let (shape, val) = match op {
+        "int" => {
+            let (s, v) = int_shape(&atoms);
+            assert!(s.contains(if signed { " I " } else { " U " }), "constructor type");
+            (s, hi(&v))
+        }
+        "fbin" => float_shape(&atoms, false),
+        "fdec" => float_shape(&atoms, true),
+        _ => ratio_shape(&atoms),
+    };
+    format!("{} ok {} val {} rt {}", toks.trim_end(), shape, val, rt)
 }
 
 fn main() {
